@@ -148,3 +148,77 @@ def write_evidence(path, psms):
                 )
                 + "\n"
             )
+
+
+# ------------------------------------------------------------------------------------------------
+# additions for the command-line glue model (harness/cli_model.py): FASTA headers of several styles, an
+# own fully-specific digestion with missed cleavages for a few proteases, per-file digestion parameters
+# ------------------------------------------------------------------------------------------------
+CLEAVE_AFTER = {"trypsin": "KR", "trypsinp": "KR", "lys-c": "K", "lys-cp": "K", "arg-c": "R"}
+ORGANISMS = ["Homo sapiens", "Mus musculus"]
+DESC_WORDS = ["Kinase", "alpha", "subunit", "binding", "protein", "2", "isoform", "C-terminal", "factor"]
+
+
+def digest_full(seq, enzyme="trypsin", mc=0, min_len=7, max_len=60):
+    """fully specific peptides of a sequence WITHOUT proline and without an initiator methionine (the generated
+    databases have neither), up to `mc` missed cleavages, in the order start position, then length"""
+    after = CLEAVE_AFTER[enzyme]
+    cuts = [0] + [i + 1 for i, c in enumerate(seq) if c in after and i + 1 < len(seq)] + [len(seq)]
+    out = []
+    for a in range(len(cuts) - 1):
+        for b in range(a + 1, min(a + 1 + mc, len(cuts) - 1) + 1):
+            p = seq[cuts[a]: cuts[b]]
+            if min_len <= len(p) <= max_len:
+                out.append(p)
+    return out
+
+
+def gen_headers(rng, db, style, gene_share):
+    """db: [(pid, seq)] with plain pids -> [(header, seq, ident-by-rule dict)].  style: 'plain' | 'desc' | 'uniprot'.
+    `gene_share`: probability that a UniProt-style header carries a GN= field; isoforms may share a gene."""
+    out = []
+    genes = []
+    for k, (pid, seq) in enumerate(db):
+        pid = pid.split("|")[2].split("_")[0] if "|" in pid else pid
+        if style == "plain":
+            hdr = pid
+        elif style == "desc":
+            hdr = pid + " " + " ".join(rng.choice(DESC_WORDS) for _ in range(rng.randint(1, 3)))
+        else:
+            acc = "Q%05d" % (10000 + 7 * k + rng.randint(0, 6))
+            words = [rng.choice(DESC_WORDS) for _ in range(rng.randint(1, 4))]
+            hdr = "sp|%s|%s_HUMAN %s OS=%s OX=9606" % (acc, pid, " ".join(words), rng.choice(ORGANISMS))
+            if rng.random() < gene_share:
+                g = rng.choice(genes) if genes and rng.random() < 0.3 else "GENE%d" % (len(genes) + 1)
+                if g not in genes:
+                    genes.append(g)
+                hdr += " GN=" + g
+            hdr += " PE=%d SV=1" % rng.randint(1, 5)
+        out.append((hdr, seq))
+    return out
+
+
+def ident(header, rule):
+    """the identifier a header gets under a rule ('first' | 'uniprot' | 'gene'); None = record skipped"""
+    first = header.split(" ")[0]
+    if rule == "first":
+        return first
+    if rule == "uniprot":
+        return first.split("|")[1] if "|" in first else first
+    if " GN=" in header:
+        return header.split(" GN=")[1].split(" ")[0]
+    return None
+
+
+def fasta_text(records, rng=None):
+    """records: [(header, seq)] -> list of lines (each ending in a newline)"""
+    lines = []
+    for hdr, seq in records:
+        lines.append(">" + hdr + "\n")
+        if rng is not None and rng.random() < 0.4 and len(seq) > 12:
+            w = rng.randint(7, 30)
+            for i in range(0, len(seq), w):
+                lines.append(seq[i: i + w] + "\n")
+        else:
+            lines.append(seq + "\n")
+    return lines
